@@ -154,8 +154,17 @@ func VerifC19Diag() {
 		}
 	}
 	metaStart := b.line
+	// the faulty declaration may be indented
+	ind := func() {
+		k := nd.Choose("indent", 3)
+		if k != 0 && nd.Param("FULLIND", 0) == 0 {
+			nd.Assume(npre == 0) // quick tier: indentation only without a prefix of earlier changes
+		}
+		b.str([]string{"", "  ", "\t"}[k])
+	}
 	switch kind {
 	case 3: // unknown metavariable type (3 arbitrary letters)
+		ind()
 		b.str("var")
 		b.spaces(sp)
 		b.str("x")
@@ -167,6 +176,7 @@ func VerifC19Diag() {
 		b.str("\n")
 		compileTime = true
 	case 4: // duplicate name in one declaration: error iff the names are equal
+		ind()
 		b.str("var")
 		b.spaces(sp)
 		x := c19Letter("n1")
@@ -187,6 +197,7 @@ func VerifC19Diag() {
 		notPrior(x)
 		b.sym(x)
 		b.str(" expression\n")
+		ind()
 		b.str("var")
 		b.spaces(sp)
 		fl, fc = b.line, b.col
@@ -197,6 +208,7 @@ func VerifC19Diag() {
 		wantErr = x == y
 		compileTime = true
 	case 6: // a digit where a name is expected
+		ind()
 		b.str("var")
 		b.spaces(sp)
 		fl, fc = b.line, b.col
